@@ -339,6 +339,36 @@ def directed() -> list[dict[str, Any]]:
                            "params": {"spec": "jk->k"}}],
                 "outputs": {"out0": 4, "out1": 5}, "vseed": 1000 + j, "profile": "distrib"}
         out.append({"spec": spec, "maxpol": 400, "compile": False, "directed": True})
+    # array (+|-) array with DIFFERENT dtypes under an einsum whose other operand is narrow:
+    # distributing must not evaluate a summand's product in the narrower type
+    drng = np.random.default_rng(7)
+
+    def data(shape: list[int], dt: str) -> list[Any]:
+        n = int(np.prod(shape))
+        if np.dtype(dt).kind in "iu":
+            return [int(v) for v in drng.integers(60, 120, size=n)]
+        return [float(v) for v in drng.uniform(0.1, 1.7, size=n)]
+    mixed = [("int8", "int8", "int64"), ("int8", "int64", "int8"), ("int16", "int16", "int32"),
+             ("float32", "float32", "float64"), ("float32", "float64", "float32"),
+             ("int32", "int32", "float64"), ("float32", "int32", "float64"),
+             ("complex64", "complex64", "complex128"), ("float32", "float32", "complex128"),
+             ("uint8", "uint8", "int64")]
+    for j, (d_a, d_1, d_2) in enumerate(mixed):
+        for op in ("add", "sub"):
+            ins = []
+            for i, (shape, dt) in enumerate([([3, 4], d_a), ([4, 2], d_1), ([4, 2], d_2)]):
+                inp = ph(i, shape, dt)
+                if np.dtype(dt).kind == "c":
+                    inp["pool"] = "generic"
+                else:
+                    inp["data"] = data(shape, dt)
+                ins.append(inp)
+            spec = {"inputs": ins,
+                    "nodes": [{"id": 3, "op": op, "args": [1, 2], "params": {}},
+                              {"id": 4, "op": "einsum", "args": [0, 3],
+                               "params": {"spec": "ij,jk->ik"}}],
+                    "outputs": {"out0": 4}, "vseed": 2000 + j, "profile": "distrib"}
+            out.append({"spec": spec, "maxpol": 400, "compile": False, "directed": True})
     return out
 
 
